@@ -160,3 +160,8 @@ def _ret_conj(cb):
   if terms:
     return [a for a, _ in terms]
   return [describe_cond(cb, {'c': {'l': 0}})]
+
+
+# sensitivity pack (thorough tier): each seeded edit must be reported by the named rule instance
+MUTANTS = [{'name': 'content-type-encoding-swapped', 'file': 'src/inscriptions/inscription.rs', 'old': 'Tag::ContentType.append(&mut builder, &self.content_type);\n    Tag::ContentEncoding.append(&mut builder, &self.content_encoding);', 'new': 'Tag::ContentType.append(&mut builder, &self.content_encoding);\n    Tag::ContentEncoding.append(&mut builder, &self.content_type);', 'expect': ('R27.1', 'append_reveal_script_to_builder', 'Tag::ContentType')},
+           {'name': 'from-value-length-guard-dropped', 'file': 'src/inscriptions/inscription_id.rs', 'old': '    if value.len() < Txid::LEN {\n      return None;\n    }\n', 'new': '', 'expect': ('R27.2', 'from_value', 'split_at')}]
